@@ -31,9 +31,22 @@ def search_plan(tier, disagreements):
 
 
 def fmt(v, rng):
+    """one of the spellings MCNP reads as v: 1 / 1.0 / 1. / +1 / 1e0, 0.5 / .5 / +.5 / 5-1"""
     if v == int(v):
-        return str(int(v)) if rng.random() < 0.5 else D.fnum(float(v))
-    return D.fnum(v)
+        t = str(int(v)) if rng.random() < 0.5 else D.fnum(float(v))
+        m = rng.random()
+        if m < 0.12:
+            t = str(int(v)) + '.'
+        elif m < 0.2 and v > 0:
+            t = '+' + t
+        return t
+    t = D.fnum(v)
+    m = rng.random()
+    if t.startswith('0.') and m < 0.4:
+        t = t[1:]
+    if m > 0.85 and v > 0:
+        t = '+' + t
+    return t
 
 
 def compress(vals, rng):
@@ -143,9 +156,16 @@ def run_case(stream, seed, ctx, params):
         code_imp = ' '.join('none' if c.id not in cap.cells_after or cap.cells_after[c.id]['imp'] is None else
                             str(struct.unpack('<Q', struct.pack('<d', float(cap.cells_after[c.id]['imp'])))[0])
                             for c in d.cells)
-        if resp != 'ok ' + code_imp:
-            fails.append(fail('disagreement', 'importances: code %s / model %s' % (code_imp[:300], resp[:300]),
+        def zeros(txt):
+            return [None if t == 'none' else struct.unpack('<d', struct.pack('<Q', int(t)))[0] == 0.0 for t in txt.split()]
+        if not resp.startswith('ok ') or resp.startswith('ok error') or zeros(resp[3:]) != zeros(code_imp):
+            # what the property constrains is which importances are zero
+            fails.append(fail('disagreement', 'importances (zero / non-zero per cell): code %s / model %s' % (code_imp[:300], resp[:300]),
                               {'stream': 'imp', 'stage': 'cellimp'}, dict(replay, request=req)))
+        elif resp != 'ok ' + code_imp:
+            # observation O3: the first entry of an IMP data card written without a leading zero ('.5') is read as 5
+            # (datacard.split gives the leading '.' to the card name); zero stays zero, so C12 is not concerned
+            dist['imp:value-differs-but-zero-agrees'] = 1
         dist['imp:cellimp-compared'] = 1
     note = res.skipped_note() or []
     if sorted(note) != zero:
